@@ -150,6 +150,7 @@ var c09Configs = []string{
 	"",
 	"self-hosted-runner:\n  labels:\n    - linux-*\n    - gpu\nconfig-variables:\n  - FOO\n  - BAR\n",
 	"self-hosted-runner:\n  labels: [bogus-*]\nconfig-variables: []\n",
+	"self-hosted-runner:\n  labels: ['gpu-[', 'linux-*']\n",
 }
 
 func c09Disk(assetNames []string, wf string, cfg string) *kern.Disk {
